@@ -8,9 +8,9 @@ CONSTANTS
   MaxFile = 2
   NCalls = 2
   Resend = TRUE
-  MaxDrop = 2
+  MaxDrop = 1
   MaxDup = 1
-  MaxEarly = 1
+  MaxEarly = 0
   LinkLoss = TRUE
   WaitMode = "wake"
   Bug = "none"
